@@ -1090,8 +1090,8 @@ class VBSClusteringManager:
                 0.0,
                 vam_constants.TIME_CLUSTER_JOIN_NOTIFICATION - elapsed,
             )
-            # joinTime is DeltaTimeQuarterSecond (0..127, units 0.25 s)
-            join_time = min(127, int(remaining_s / 0.25))
+            # joinTime is DeltaTimeQuarterSecond (1..127, units 0.25 s; 0 cannot be encoded)
+            join_time = max(1, min(127, int(remaining_s / 0.25)))
             container["clusterJoinInfo"] = {
                 "clusterId": self._join_target_cluster_id or 0,
                 "joinTime": join_time,
@@ -1140,7 +1140,8 @@ class VBSClusteringManager:
                 0.0,
                 vam_constants.TIME_CLUSTER_BREAKUP_WARNING - elapsed,
             )
-            breakup_time = min(127, int(remaining_s / 0.25))
+            # DeltaTimeQuarterSecond (1..127); 0 cannot be encoded
+            breakup_time = max(1, min(127, int(remaining_s / 0.25)))
             return {
                 "clusterBreakupInfo": {
                     "clusterBreakupReason": (
